@@ -137,6 +137,11 @@ Proof.
   apply andb_true_iff. split; [apply N.eqb_refl|apply N.ltb_lt; assumption].
 Qed.
 
+(* what CommitWAL leaves in its picture of the log: the frames, the last one carrying the size *)
+Definition tx_frames (frames : list (N * pg)) (commit : N) : list (N * pg * N) :=
+  map (fun kv => (fst kv, snd kv, 0)) (removelast frames) ++
+  match rev frames with (p, q) :: _ => [(p, q, commit)] | [] => [] end.
+
 (* ---- CommitWAL, with what a history needs: beyond the database size a page's cache slot is empty or the page has WAL
    entries (it was cut off by an earlier WAL commit) ---- *)
 Lemma commit_wal_gen s frames commit s' :
@@ -147,7 +152,8 @@ Lemma commit_wal_gen s frames commit s' :
     chk s' = scratch (eff s commit (tx_new s frames commit)) commit /\
     txid s' = txid s + 1 /\ pageN s' = commit /\ CacheOK s' /\ (forall p, dbc s' p = dbc s p) /\
     wal_chk s' = append_chk new (wal_chk s) /\ writeable s' = true /\ lockpg s' = lockpg s /\
-    wal_mode s' = match alookup 1 (tx_pages s frames commit) with Some q => pg_wal q | None => wal_mode s end.
+    wal_mode s' = match alookup 1 (tx_pages s frames commit) with Some q => pg_wal q | None => wal_mode s end /\
+    wal_file s' = wal_file s ++ tx_frames frames commit /\ dbfile s' = dbfile s.
 Proof.
   intros HC HL HT H. unfold op_commit_wal in H. fold (tx_pages s frames commit) in H. fold (tx_new s frames commit) in H.
   destruct (truncated_pages s (commit + 1) (N.to_nat (pageN s)) (tx_new s frames commit)) as [new|] eqn:Etr; [|discriminate].
@@ -168,16 +174,16 @@ Proof.
       rewrite (ignored_of_walkey s new _ p l El Hb) in Hig. discriminate. }
   pose proof (checksum_is_scratch s commit new post s1 HP Eck) as Hpost.
   pose proof (dbc_samebut s s1 HS) as Hdbc.
-  destruct HS as [S1 [S2 [_ [_ [S5 [_ [S7 _]]]]]]].
+  destruct HS as [S1 [S2 [S3 [_ [S5 [_ [S7 [_ [S9 _]]]]]]]]].
   exists new. split; [reflexivity|].
-  cbn [chk txid pageN wal_chk writeable lockpg wal_mode with_pos with_wal].
+  cbn [chk txid pageN wal_chk writeable lockpg wal_mode wal_file dbfile with_pos with_wal].
   split.
   { rewrite Hpost. unfold scratch. f_equal. f_equal. apply map_ext_in. intros p Hp. apply seqN_in in Hp.
     unfold eff, page_chk. rewrite T1 by lia. reflexivity. }
   split; [reflexivity|]. split; [reflexivity|]. split; [exact HC2|].
   split. { intros p. change (dbc s1 p = dbc s p). apply Hdbc. }
   split; [rewrite S7; reflexivity|]. split; [exact Ew1|]. split; [exact S2|].
-  rewrite S5. reflexivity.
+  split; [rewrite S5; reflexivity|]. split; [rewrite S9; reflexivity|exact S3].
 Qed.
 
 (* ---- between WAL transactions ---- *)
@@ -206,7 +212,7 @@ Lemma w_step s v frames commit s' : WL s v -> wf_wal s frames commit -> op_commi
   WL s' (overlay (lockpg s) frames commit v) /\ lockpg s' = lockpg s /\ txid s' = txid s + 1 /\ pageN s' = commit.
 Proof.
   intros [Ww Wm Wl Wc Wz Wv Wt Wk] [Hg Hp1] H.
-  destruct (commit_wal_gen s frames commit s' Wc Wz Wt H) as [new [Etr [C1 [C2 [C3 [C4 [C5 [C6 [C7 [C8 C9]]]]]]]]]].
+  destruct (commit_wal_gen s frames commit s' Wc Wz Wt H) as [new [Etr [C1 [C2 [C3 [C4 [C5 [C6 [C7 [C8 [C9 _]]]]]]]]]]].
   destruct (truncated_pages_spec s _ _ _ _ Etr) as [T1 T2].
   pose proof (truncated_pages_keys s _ _ _ _ Etr (tx_new_keys s frames commit)) as Hkn.
   assert (Hov : forall p, 1 <= p <= commit -> p <> lockpg s ->
